@@ -125,6 +125,16 @@ def run_config(c: dict) -> dict:
     N = len(shape)
     rank = c["rank"]
     X, Xd = make_data(c["kind"], shape, c["seed"], rank, c.get("dtype", "float"))
+    # the magnitude of the data is a presentation: CP-ALS is equivariant under a power-of-two factor (exact in
+    # floating point), so the run on sc * X is observed through M / sc and normresidual / sc
+    sc = 2.0 ** int(c.get("scale2", 0)) if (c.get("dtype", "float") == "float" and c["kind"] in ("dense", "sparse", "ttensor")) else 1.0
+    if sc != 1.0:
+        if c["kind"] == "dense":
+            X = ttb.tensor(X.data * sc)
+        elif c["kind"] == "sparse":
+            X = ttb.sptensor(X.subs.copy(), X.vals * sc, X.shape)
+        else:
+            X = ttb.ttensor(ttb.tensor(X.core.data * sc), [f.copy() for f in X.factor_matrices])
     ids = make_ids()
     rng = np.random.RandomState(c["seed"] + 7)
     init_kt = ttb.ktensor([rng.rand(s, rank) for s in shape], np.ones(rank))
@@ -161,6 +171,9 @@ def run_config(c: dict) -> dict:
     for n, cid in rec.calls:
         tr["ev"].append({"op": "kernel", "args": {"n": n, "ids": cid}})
     # observations on the returned triple, recomputed independently with numpy on dense arrays
+    if sc != 1.0:
+        M = ttb.ktensor([f.copy() for f in M.factor_matrices], M.weights / sc)
+        out = dict(out, normresidual=out["normresidual"] / sc)
     Mf = M.full().data
     Xn = np.linalg.norm(Xd.data)
     res_re = np.linalg.norm(Xd.data - Mf)
@@ -239,7 +252,8 @@ def configs(cfgs: List[dict], tier: str) -> List[dict]:
                         "seed": core.seed() + i % 7, "dimorder": c["dimorder"], "optdims": c["optdims"],
                         "maxiters": c["maxiters"], "stoptol": rr.choice([0.0, 1e-4]), "printitn": rr.choice([0, 1, 2]),
                         "fixsigns": rr.choice([False, True]), "init": init,
-                        "dtype": rr.choice(["float", "float", "int"]) if kind in ("dense", "sparse") else "float"})
+                        "dtype": rr.choice(["float", "float", "int"]) if kind in ("dense", "sparse") else "float",
+                        "scale2": rr.choice([0, 0, -40, 30])})
             i += 1
     return out
 
